@@ -42,7 +42,7 @@ from vf import env as venv
 from vf.core import Case, Ob
 from vf.fpx import FCase, FOb, FInputs
 from vf.sym import S, SI
-from vf.tsym import st
+from vf.tsym import st, exact_floats
 
 PROP = "C13"
 
@@ -605,8 +605,9 @@ class ComputeLoop(Case):
         o._backend_instance = _CountingBackend(rho0, cs, mean_field=(cls is MeanFieldTempo))
         end1 = start + (m1 + th1) * dt
         end2 = start + (m2 + th2) * dt
-        o.compute(end1, progress_type="silent")
-        dyn = o.compute(end2, progress_type="silent")
+        with exact_floats():
+            o.compute(end1, progress_type="silent")
+            dyn = o.compute(end2, progress_type="silent")
         m1c, m2c = int(m1), int(m2)
         top = max(m1c, m2c)
         times = list(dyn._times)
